@@ -287,6 +287,13 @@ let register (reg : string -> (string list -> string) -> unit) =
   reg "xml" (function [k; t] -> xml_case k t | [k] -> xml_case k "" | _ -> "BADARGS");
   reg "csshex" (function [v] -> hexe (CssColor.hex_color_minify Tables_gen.css_shorten_color_hex (hexd v)) | _ -> "BADARGS");
   reg "htmlws" (function [o; t] -> htmlws_case o t | [o] -> htmlws_case o "" | _ -> "BADARGS");
+  reg "htmlattrout" (function [o; tag; attrs] ->
+      let opts = { HtmlAttrLoop.keep_default = Stdlib.String.get o 0 = '1'; keep_quotes = Stdlib.String.get o 1 = '1' } in
+      let al = Stdlib.List.map (fun a -> match split ':' a with
+        | [n; e; t; q] -> { HtmlAttrLoop.a_name = hexd n; a_val_ent = hexd e; a_val_trim = hexd t; a_quote = z_of_int (int_of_string q) }
+        | _ -> failwith "htmlattrout attr") (split ',' attrs) in
+      hexe (HtmlAttrLoop.attrs_out opts (bytes_of_string tag) al)
+    | _ -> "BADARGS");
   reg "htmltype" (function [tag; ty; cands] ->
       let cl = split '\n' (string_of_bytes (hexd cands)) in
       (match HtmlSelect.html_select (bytes_of_string tag) (hexd ty) with
